@@ -3,6 +3,13 @@ from . import expr as X, capdrv
 from .cap import Cap
 from .report import canon
 
+def prog_fn(fns, name):
+    for f in fns:
+        if f.name == name:
+            return f
+    return None
+
+
 KIND_TEXT = {
     "lower": "access starts before the beginning of the object",
     "upper": "access runs past the end of the object",
@@ -18,13 +25,124 @@ KIND_TEXT = {
 }
 
 
+def internal_helpers(prog, fns, max_depth=Cap.MAX_INLINE):
+    """Functions of `fns` that are not entry points of anything: static, never installed in a table or otherwise used as a
+    value, and called from functions of `fns` (directly, or through another such helper within CAP's inlining depth).
+    Such a helper may rely on what its callers established (a position already validated, a pointer already tested); it is
+    analysed where it is inlined into each caller - with the caller's state - and not a second time from an arbitrary one."""
+    from .facts import walk
+    by_unit = {}
+    for f in fns:
+        by_unit.setdefault(f.unit.name, []).append(f)
+    inset = {id(f) for f in fns}
+    cand = {}
+    for uname, fs in by_unit.items():
+        u = fs[0].unit
+        used_as_value = set()
+        callers = {}
+        bodies = [(g, g.body) for g in u.functions.values() if g.body is not None]
+        for g, body in bodies:
+            callee_nodes = set()
+            for c in X.calls_in(body):
+                s0 = X.strip(c["ch"][0])
+                if s0 is not None and s0.get("k") == "ref" and s0.get("rk") == "func":
+                    callee_nodes.add(s0["i"])
+                    callers.setdefault(s0["n"], set()).add(g.name)
+            for n in walk(body):
+                if n.get("k") == "ref" and n.get("rk") == "func" and n["i"] not in callee_nodes:
+                    used_as_value.add(n["n"])
+        for gl in u.all_globals:
+            if gl.get("init") is not None:
+                for n in walk(gl["init"]):
+                    if n.get("k") == "ref" and n.get("rk") == "func":
+                        used_as_value.add(n["n"])
+        for f in fs:
+            if f.static and f.name not in used_as_value and callers.get(f.name) and f.name not in callers[f.name]:
+                cand[f.name, uname] = (f, callers[f.name], u)
+    # depth: a helper is internal when every caller is an analysed non-helper (depth 1) or a helper of smaller depth
+    depth = {}
+    changed = True
+    while changed:
+        changed = False
+        for (name, uname), (f, cs, u) in cand.items():
+            if (name, uname) in depth:
+                continue
+            d = 0
+            ok = True
+            for c in cs:
+                g = u.functions.get(c)
+                if (c, uname) in cand:
+                    if (c, uname) not in depth:
+                        ok = False
+                        break
+                    d = max(d, depth[c, uname] + 1)
+                elif g is not None and id(g) in inset:
+                    d = max(d, 1)
+                # a caller outside `fns` is outside the scope this check analyses (as is that caller's own code)
+            if ok and 1 <= d <= max_depth:
+                depth[name, uname] = d
+                changed = True
+    return {cand[k][0].name for k in depth}
+
+
+_FEEDS = {}
+
+
+def _feeds_from_helpers(prog, fn, cp):
+    """Does fn hand part of its scanning to inlined helpers that loop or write through the address of one of fn's locals?  Then
+    the values fn's own bounds depend on (an index a helper returns, a mode a helper stores) cross a call boundary, where the
+    loop invariants are weaker: an undecided bound of such a function stays undecided instead of being reported by the strict
+    scope (which is meant for the self-contained scanners of the reviewed tree)."""
+    key = (fn.unit.name, fn.name)
+    if key not in _FEEDS:
+        res = False
+        from .facts import walk
+        for c in X.calls_in(fn.body):
+            g = prog.fn(X.callee_name(c) or "")
+            if g is None or g.body is None or g is fn or cp.no_inline(g) or not cp.inline:
+                continue
+            loops = any(x.get("k") in ("for", "while", "do") for x in walk(g.body))
+            outp = False
+            for a in c["ch"][1:]:
+                sa = X.strip(a)
+                if sa is not None and sa.get("k") == "un" and sa.get("op") == "&":
+                    t = X.strip(sa["ch"][0])
+                    if t is not None and t.get("k") == "ref" and t.get("rk") == "local":
+                        outp = True
+            if loops or outp:
+                res = True
+        _FEEDS[key] = res
+    return _FEEDS[key]
+
+
 def run_cap(chk, prog, fns, rule="B1", noreturn=("libast_fatal_error",), kinds=None, cap_factory=None, entry=None, strict=False):
     """Analyse each function; BAD obligations become violations, undecided ones are counted."""
     n_und = 0
     n_fn = 0
     und_samples = []
+    probe = None
+    helpers = set()
+    if entry is None and any(f_.static for f_ in fns):
+        probe = cap_factory(prog) if cap_factory else Cap(prog, noreturn=noreturn)
+        if probe.inline:
+            for h in internal_helpers(prog, fns):
+                hf = prog_fn(fns, h)
+                probe.cur_fn = hf
+                try:
+                    if not probe.no_inline(hf):
+                        helpers.add(h)
+                except AttributeError:
+                    pass
+            probe.cur_fn = None
+        if helpers:
+            chk.note("CAP: analysed only where inlined into their callers (static, never used as a value): " + ", ".join(sorted(helpers)))
     for fn in fns:
-        cp = cap_factory(prog) if cap_factory else Cap(prog, noreturn=noreturn)
+        if fn.name in helpers:
+            continue
+        if probe is not None:
+            cp, probe = probe, None        # the instance made for the helper question serves the first function
+        else:
+            cp = cap_factory(prog) if cap_factory else Cap(prog, noreturn=noreturn)
         try:
             if entry is not None:
                 rets = cp.run_function(fn, entry(fn))
@@ -44,7 +162,8 @@ def run_cap(chk, prog, fns, rule="B1", noreturn=("libast_fatal_error",), kinds=N
             loc = o.fn.loc(o.node)
             if o.ok:
                 chk.ob(rule, fn.name, site, True, loc=loc, proof="entailed by the path condition on every explored path (Fourier-Motzkin)")
-            elif o.undecided and strict and o.kind in ("lower", "upper", "count", "null", "slice") and fn.nodes.get(o.node.get("i")) is o.node:
+            elif o.undecided and strict and o.kind in ("lower", "upper", "count", "null", "slice") and fn.nodes.get(o.node.get("i")) is o.node \
+                    and not _feeds_from_helpers(prog, fn, cp):
                 # strict scope: every bound of these functions is proven on the reviewed tree, so a bound that can no
                 # longer be established is reported.  Obligations inside an inlined helper (o.fn is not the analysed function)
                 # stay undecided: the invariants across a call boundary are weaker, and a helper extracted by a refactoring
